@@ -87,10 +87,12 @@ def run_engine(work, jobs, extra_flags=(), timeout=None, tag='jobs'):
 # ---------------------------------------------------------------- native replay
 
 class Runner:
-    def __init__(self, work, race=False, pkg='spdxexp'):
+    def __init__(self, work, race=False, pkg='spdxexp', internal=False):
         self.work = work
         self.pkg = pkg
-        self.bin = work.path('runner.%s.test' % pkg + ('.race' if race else ''))
+        self.internal = internal
+        self.tag = pkg + ('.int' if internal else '')
+        self.bin = work.path('runner.%s.test' % self.tag + ('.race' if race else ''))
         self.race = race
         self.built = False
         self.err = None
@@ -102,11 +104,14 @@ class Runner:
         hdir = os.path.join(VERIF, 'harness')
         repl = {}
         names = []
-        for f in sorted(glob.glob(os.path.join(hdir, self.pkg, '*.go'))):
+        srcs = sorted(glob.glob(os.path.join(hdir, self.pkg, '*.go')))
+        if self.internal:
+            srcs += sorted(glob.glob(os.path.join(hdir, self.pkg + '_internal', '*.go')))
+        for f in srcs:
             repl[os.path.join(REPO, self.pkg, 'zz_verif_' + os.path.basename(f))] = f
             with open(f) as fh:
                 names += re.findall(r'^func (VH_\w+)\(a \[\]string\)', fh.read(), re.M)
-        reg = self.work.path('registry_%s_test.go' % self.pkg)
+        reg = self.work.path('registry_%s_test.go' % self.tag)
         with open(reg, 'w') as fh:
             fh.write('//go:build verif\n\npackage %s\n\nvar vHarnesses = map[string]func([]string){\n' % ('main' if self.pkg == 'cmd' else self.pkg))
             for n in names:
@@ -114,7 +119,7 @@ class Runner:
             fh.write('}\n')
         repl[os.path.join(REPO, self.pkg, 'zz_verif_registry_test.go')] = reg
         repl[os.path.join(REPO, self.pkg, 'zz_verif_runner_test.go')] = os.path.join(hdir, 'runner' if self.pkg == 'spdxexp' else 'runner_cmd', 'runner_test.go')
-        ov = self.work.path('overlay.%s.json' % self.pkg)
+        ov = self.work.path('overlay.%s.json' % self.tag)
         with open(ov, 'w') as fh:
             json.dump({'Replace': repl}, fh)
         cmd = ['go', 'test', '-c', '-tags', 'verif', '-vet=off', '-overlay', ov, '-o', self.bin]
@@ -137,7 +142,7 @@ class Runner:
         # a native crash (stack overflow, fatal error) kills the process: run in chunks and
         # bisect on failure
         def chunk(rs):
-            inp, outp = self.work.path('replay.%s.in' % self.pkg), self.work.path('replay.%s.out' % self.pkg)
+            inp, outp = self.work.path('replay.%s.in' % self.tag), self.work.path('replay.%s.out' % self.tag)
             with open(inp, 'w') as fh:
                 for r in rs:
                     fh.write(json.dumps(r) + '\n')
@@ -219,7 +224,7 @@ def run_check(prop, tier, seed):
         for k, args in enumerate(g['jobs']):
             jid = '%s/%d' % (g['name'], k)
             j = {'id': jid, 'pkg': g.get('pkg', 'spdxexp'), 'harness': g['harness'], 'args': [str(a) for a in args],
-                 'merge': g.get('merge', []), 'nomerge': g.get('nomerge', False)}
+                 'merge': g.get('merge', []), 'nomerge': g.get('nomerge', False), 'nofallback': bool(g.get('whole_table'))}
             jobs.append(j)
             gof[jid] = g
     # expensive groups first so that shards balance
@@ -230,9 +235,20 @@ def run_check(prop, tier, seed):
     flags = ['-timeout', str(spec.get('solver_timeout_ms', 60000 if tier == 'quick' else 300000))]
     if spec.get('partition', True):
         flags.append('-partition')
-    flags += ['-maxviol', str(spec.get('maxviol', 6))]
+    flags += ['-maxviol', str(spec.get('maxviol', 6)), '-jobtimeout', str(spec.get('job_timeout_s', 600 if tier == 'quick' else 3600))]
     log('[%s %s] %d jobs in %d groups, %d workers' % (prop, tier, len(jobs), len(groups), min(NCPU, len(jobs))))
-    results, fatal = run_engine(work, jobs, flags, timeout=spec.get('engine_timeout_s', 3600 if tier == 'quick' else 6 * 3600))
+    # harnesses that use library internals are loaded only for the groups that need them, so
+    # that a refactoring of internals cannot take the public-API groups down with it
+    jpub = [j for j in jobs if not gof[j['id']].get('internal')]
+    jint = [j for j in jobs if gof[j['id']].get('internal')]
+    results, fatal = [], []
+    tmo = spec.get('engine_timeout_s', 3600 if tier == 'quick' else 6 * 3600)
+    if jpub:
+        r1, f1 = run_engine(work, jpub, flags, timeout=tmo, tag='jobs')
+        results += r1; fatal += f1
+    if jint:
+        r2, f2 = run_engine(work, jint, flags + ['-internal'], timeout=tmo, tag='jobsint')
+        results += r2; fatal += ['(internal-API harnesses) ' + x for x in f2]
     byid = {r['id']: r for r in results}
 
     inconcl = list(fatal)
@@ -285,8 +301,10 @@ def run_check(prop, tier, seed):
             return {r['id']: {a: (st['reached'] > 0, st['violated'] > 0) for a, st in r.get('asserts', {}).items()} for r in rs}
         base = verdicts([byid[j['id']] for j in sample])
         for label, xflags, xjobs in (('z3-new', ['-solver', 'z3-new'], sample), ('cvc5', ['-solver', 'cvc5'], sample[:12]),
-                                     ('no-merge', ['-nomerge'], sample[:16])):
-            xr, xf = run_engine(work, xjobs, flags + xflags, timeout=1800, tag='cross_' + label.replace('-', ''))
+                                     ('no-merge', ['-nomerge'], [j for j in sample if not j.get('nofallback') and gof[j['id']].get('cost', 1) <= 5][:16])):
+            if not xjobs:
+                continue
+            xr, xf = run_engine(work, xjobs, flags + xflags + (['-internal'] if any(gof[j['id']].get('internal') for j in xjobs) else []), timeout=1800, tag='cross_' + label.replace('-', ''))
             if xf:
                 cross[label] = dict(jobs=len(xjobs), status='not completed: ' + '; '.join(xf)[:200])
                 continue
@@ -323,11 +341,11 @@ def run_check(prop, tier, seed):
     reqs = {}
     for i, c in enumerate(cands + wits):
         c['rid'] = 'r%d' % i
-        reqs.setdefault(c['group'].get('pkg', 'spdxexp'), []).append(dict(id=c['rid'], harness=c['job']['harness'], args=c['job']['args'], vector=c['v']['vector']))
+        reqs.setdefault((c['group'].get('pkg', 'spdxexp'), bool(c['group'].get('internal'))), []).append(dict(id=c['rid'], harness=c['job']['harness'], args=c['job']['args'], vector=c['v']['vector']))
     resp = {}
-    for pkg, rq in reqs.items():
+    for (pkg, internal), rq in reqs.items():
         try:
-            resp.update(Runner(work, race=bool(spec.get('race')), pkg=pkg).run(rq))
+            resp.update(Runner(work, race=bool(spec.get('race')), pkg=pkg, internal=internal).run(rq))
         except RuntimeError as e:
             inconcl.append(str(e)[:1500])
     validated = 0
@@ -368,6 +386,7 @@ def run_check(prop, tier, seed):
                 sig = '%s|%s|%s' % (c['job']['harness'], aid, notes.get('sig', notes.get('text', describe_vec(c['v']['vector']))))
             if sig not in confirmed:
                 confirmed[sig] = dict(sig=sig, assert_id=aid if c['kind'] != 'panic' else 'no-panic', harness=c['job']['harness'], args=c['job']['args'],
+                                      pkg=c['group'].get('pkg', 'spdxexp'), internal=bool(c['group'].get('internal')), race=bool(spec.get('race')),
                                       vector=c['v']['vector'], notes=notes, panic=rp.get('panic'), panic_at=rp.get('panic_at'), count=0)
             confirmed[sig]['count'] += 1
         else:
@@ -525,7 +544,7 @@ def replay_file(path):
         rec = json.load(f)
     ensure_engine()
     work = Work('replay')
-    runner = Runner(work)
+    runner = Runner(work, pkg=rec.get('pkg', 'spdxexp'), internal=bool(rec.get('internal')), race=bool(rec.get('race')))
     rp = runner.run([dict(id='r0', harness=rec['harness'], args=rec['args'], vector=rec['vector'])]).get('r0', {})
     log(json.dumps(rp, indent=1))
     failed = rp.get('failed') or []
